@@ -487,3 +487,32 @@ def protocol_mc(chk, nseeds=None):
         r = tlc("MC_Protocol.tla", cfg, chk.path("nv_" + probe), workers=4, timeout=1200, seed=chk.seed)
         if not (r["error"] and "Invariant" in r["error"]):
             raise ToolError("non-vacuity probe %s was not violated: the protocol model never reaches that situation" % probe)
+
+
+def toy_ideal(chk, curve, progs, cfgname, what, name, fl=None, retries=2):
+    """Record programs on a toy curve and check an ideal-verdict invariant over the code's own verdicts. A run that violates the
+    invariant may be Schwartz-Zippel / small-group luck: it is re-run under fresh randomness and counts only if it repeats every time."""
+    fl = fl or flags()
+    progs = [dict(p, expect_p="", expect_v="") for p in progs]
+    byid = {p["id"]: p for p in progs}
+    tp, sums = record(chk, curve, progs, name)
+    acc, rej = validate_traces(chk, tp, curve, flags=fl, cfgname=cfgname)
+    for p in progs:
+        chk.count_case([curve, p["id"], p.get("tamper")])
+    for rj in rej:
+        pid = rj["run"][0].get("id")
+        p = byid.get(pid)
+        if p is None or "nvariant" not in rj["reason"]:
+            report_rejects(chk, [rj], what)
+            continue
+        again = []
+        for k in range(1, retries + 1):
+            p2 = dict(p, seed=(p.get("seed", 0) + 7919 * k) % (1 << 62), id=pid + "-retry%d" % k)
+            t2, _ = record(chk, curve, [p2], "retry")
+            a2, r2 = validate_traces(chk, t2, curve, flags=fl, cfgname=cfgname)
+            again.append(bool(r2))
+        if all(again):
+            report_rejects(chk, [rj], what)
+        else:
+            chk.cov["lucky_accepts_explained"] = chk.cov.get("lucky_accepts_explained", 0) + 1
+    return rej
